@@ -85,6 +85,8 @@ pub enum Ev {
     /// `count` instantiations of unknown names in a row (each must fail, and must not
     /// change what later definitions resolve to)
     FailStorm { ctx: u8, count: u16 },
+    /// `count` valid instantiations in a row: handles stay unique, old operators stay put
+    OpBurst { ctx: u8, count: u16 },
     Clear,
     /// write `<file>` under `<root>/resources/`; text None = make it unreadable (`how`)
     WriteResource { root: u8, file: String, text: String },
@@ -379,7 +381,7 @@ impl Engine for RegSim {
                 "macro invocations carry no arguments (argument passing is C04's subject), so that a macro's value is its body's value",
                 "the sequential cache model is exact: a grid lookup is served from the cache if the name is cached, else from the first root holding the file",
             ],
-            required_probes: &["shadow_builtin_after_creation", "reregistration_after_creation", "foreign_handle", "forged_handle", "file_macro_from_resource_file", "file_macro_from_register", "register_item_at_eof_without_terminator", "register_item_first_in_file", "register_cr_only", "runtime_beats_file", "second_root_used", "broken_file_falls_through", "grid_replaced_while_cached", "clear_then_new_version", "refusing_constructor", "recursive_macro", "op_after_clear_old_handle_alive", "op_from_another_os_thread", "storm_of_failing_instantiations"],
+            required_probes: &["shadow_builtin_after_creation", "reregistration_after_creation", "foreign_handle", "forged_handle", "file_macro_from_resource_file", "file_macro_from_register", "register_item_at_eof_without_terminator", "register_item_first_in_file", "register_cr_only", "runtime_beats_file", "second_root_used", "broken_file_falls_through", "grid_replaced_while_cached", "clear_then_new_version", "refusing_constructor", "recursive_macro", "op_after_clear_old_handle_alive", "op_from_another_os_thread", "storm_of_failing_instantiations", "burst_of_instantiations"],
             exhaustive: false,
         }
     }
@@ -424,8 +426,10 @@ impl Engine for RegSim {
                 4 if n_ops > 0 => events.push(Ev::Steps { ctx: rng.below(n_ctx) as u8, op: rng.below(n_ops as usize) as u16 }),
                 5 if n_ops > 0 => events.push(Ev::Params { ctx: rng.below(n_ctx) as u8, op: rng.below(n_ops as usize) as u16, index: rng.below(4) as u8 }),
                 6 => {
-                    if rng.chance(0.15) {
+                    if rng.chance(0.08) {
                         events.push(Ev::FailStorm { ctx, count: *rng.pick(&[3u16, 40, 130, 260]) });
+                    } else if rng.chance(0.05) {
+                        events.push(Ev::OpBurst { ctx, count: *rng.pick(&[20u16, 300, 700]) });
                     } else {
                         events.push(Ev::Forged { ctx });
                     }
@@ -852,6 +856,44 @@ impl Engine for RegSim {
                     }
                     changed_world = true;
                     rec.logf(|| format!("e{} ctx{} {} failing instantiations", k, c, count));
+                }
+                Ev::OpBurst { ctx, count } => {
+                    sig.str("U");
+                    let c = *ctx as usize % n_ctx;
+                    if *count >= 256 {
+                        rec.probe("burst_of_instantiations");
+                    }
+                    let r = catch(|| {
+                        let mut made = Vec::new();
+                        for i in 0..*count {
+                            let def = if i % 3 == 0 { "helmert x=1 y=2 z=3" } else { "noop" };
+                            if let Ok(h) = ctxs[c].get_mut().op(def) {
+                                made.push(h);
+                            }
+                        }
+                        made
+                    });
+                    match r {
+                        Err(p) => {
+                            rec.violate("I-safe", &format!("op() panics: {}", p), format!("event {}", k));
+                            break;
+                        }
+                        Ok(made) => {
+                            // (a user operator may shadow `noop`/`helmert` and refuse: then fewer are made)
+                            let mut clash = false;
+                            for h in &made {
+                                if !handles.insert(*h) {
+                                    clash = true;
+                                }
+                            }
+                            if clash {
+                                rec.violate("I-hnd", "op() returned a handle that is already in use", format!("event {}: within or after a burst of {} instantiations", k, count));
+                                break;
+                            }
+                        }
+                    }
+                    changed_world = true;
+                    rec.logf(|| format!("e{} ctx{} burst of {} instantiations", k, c, count));
                 }
                 Ev::Clear => {
                     sig.str("C");
